@@ -38,10 +38,16 @@ where
     /// Example: 'MNEMonic' would return 'MNEM'
     fn short_form(&self) -> &'static [u8] {
         let mnemonic = self.mnemonic();
+        // An underscore between upper case characters belongs to the short form ('MY_CMD'),
+        // one that leads into the optional tail does not ('SAMP_rate' is 'SAMP')
         let len = mnemonic
             .iter()
-            .take_while(|c| c.is_ascii_uppercase() || c.is_ascii_digit())
+            .take_while(|c| c.is_ascii_uppercase() || c.is_ascii_digit() || **c == b'_')
             .count();
+        let len = mnemonic[..len]
+            .iter()
+            .rposition(|c| *c != b'_')
+            .map_or(0, |last| last + 1);
         &mnemonic[..len]
     }
 }
